@@ -325,3 +325,33 @@ Lemma relock_nonrecursive_code :
   let r := lock_code m1 1 in
   snd r = Acquired /\ map a_issuer (queue (fst r)) = [1] /\ owner (fst (unlock_code (fst r) 1)) = Some 1.
 Proof. vm_compute. repeat split; reflexivity. Qed.
+
+(** lock() returns at once iff the mutex is free or (recursive and) already held by the caller; otherwise the caller is
+    appended to the queue and nothing else changes *)
+Theorem lock_outcome : forall fx m p, in_queue p (queue m) = false -> undefined_region m (Lock p) = false ->
+  let r := step fx m (Lock p) in
+  (snd r = Acquired <-> owner m = None \/ owner m = Some p) /\
+  (snd r = Blocked <-> exists o, owner m = Some o /\ o <> p) /\
+  (snd r = Acquired \/ snd r = Blocked) /\
+  (snd r = Acquired -> owner (fst r) = Some p /\ queue (fst r) = queue m) /\
+  (snd r = Blocked -> map a_issuer (queue (fst r)) = map a_issuer (queue m) ++ [p] /\ owner (fst r) = owner m /\ depth (fst r) = depth m).
+Proof.
+  intros fx m p Hq Hu. unfold step. cbn [issuer_of]. rewrite Hq, Hu. cbn [undefined_region] in Hu. unfold lock_code.
+  destruct (recursive m) eqn:Hr.
+  - destruct (is_owner m p) eqn:Ho.
+    + apply is_owner_spec in Ho. cbn. rewrite Ho. repeat split; auto; try discriminate.
+      intros (o & H1 & H2). congruence.
+    + apply is_owner_false in Ho. destruct (owner m) as [o|] eqn:Hown.
+      * rewrite (bump_none p (queue m) Hq). cbn. repeat split; auto; try discriminate.
+        -- intros [H|H]; congruence.
+        -- intros _. exists o. split; [reflexivity | congruence].
+        -- now rewrite map_app.
+      * cbn. repeat split; auto; try discriminate. intros (o & H1 & _). discriminate.
+  - cbn [negb andb] in Hu. destruct (owner m) as [o|] eqn:Hown.
+    + assert (Hop : (o =? p) = false) by (unfold is_owner in Hu; now rewrite Hown in Hu).
+      rewrite Hop. apply Z.eqb_neq in Hop. cbn. repeat split; auto; try discriminate.
+      * intros [H|H]; congruence.
+      * intros _. exists o. auto.
+      * now rewrite map_app.
+    + cbn. repeat split; auto; try discriminate. intros (o & H1 & _). discriminate.
+Qed.
